@@ -16,7 +16,8 @@ import (
 
 type C13Scn struct {
 	Query    string            `json:"query"`
-	Keys     []string          `json:"keys"` // top-level response keys in document order (known by construction)
+	Keys     []string          `json:"keys"`         // top-level response keys in document order (known by construction)
+	Op       string            `json:"op,omitempty"` // operation name to select (multi-operation documents)
 	Faults   map[string]string `json:"faults,omitempty"`
 	AllThunk bool              `json:"all_thunk,omitempty"`
 	Entry    string            `json:"entry"`
@@ -102,13 +103,29 @@ func (p c13) Gen(seed uint64, enum int, tier string) json.RawMessage {
 	r := NewRNG(seed)
 	s := C13Scn{}
 	s.Query, s.Keys = genMutation(r)
+	if r.Chance(35) {
+		// a multi-operation document: the mutation is selected by name, other
+		// operations (of other kinds) stand before and/or after it
+		s.Op = "M"
+		s.Query = strings.Replace(s.Query, "mutation {", "mutation M {", 1)
+		others := []string{"query Q1 { x1 }", "subscription S1 { events { id } }", "query Q2 { a { id } }", "mutation M2 { s1(v:9) }"}
+		i, j := r.Intn(len(others)), r.Intn(len(others))
+		if r.Chance(50) {
+			s.Query = others[i] + " " + s.Query
+		} else {
+			i = -1
+		}
+		if r.Chance(75) && j != i {
+			s.Query = s.Query + " " + others[j]
+		}
+	}
 	s.Entry = []string{"do", "plan"}[r.Intn(2)]
 	s.Order = uint32(r.Intn(4))
 	s.Salt = r.Uint64() % 1000
 	// the fault-free run tells which response paths exist
 	w := NewWorld("A")
 	rc := &ReqCtx{Task: "dry", W: w, RootTok: Tok{T: "Mutation"}}
-	graphql.Do(graphql.Params{Schema: w.Schema, RequestString: s.Query, Context: WithReq(context.Background(), rc)})
+	graphql.Do(graphql.Params{Schema: w.Schema, RequestString: s.Query, OperationName: s.Op, Context: WithReq(context.Background(), rc)})
 	paths := SortedKeys(rc.Seen)
 	switch r.Intn(5) {
 	case 0:
@@ -177,13 +194,13 @@ func (c13) Run(t TestingT, scn json.RawMessage, tape *Tape) *Outcome {
 		if err != nil {
 			return &Outcome{Infra: "generated mutation does not parse: " + err.Error()}
 		}
-		plan, err := graphql.PlanQuery(&w.Schema, doc, "")
+		plan, err := graphql.PlanQuery(&w.Schema, doc, sc.Op)
 		if err != nil {
 			return &Outcome{Infra: "generated mutation does not plan: " + err.Error()}
 		}
 		res = graphql.ExecutePlan(plan, graphql.ExecuteParams{Schema: w.Schema, Context: ctx})
 	} else {
-		res = graphql.Do(graphql.Params{Schema: w.Schema, RequestString: sc.Query, Context: ctx})
+		res = graphql.Do(graphql.Params{Schema: w.Schema, RequestString: sc.Query, OperationName: sc.Op, Context: ctx})
 	}
 	log, fired, _, _ := rc.Snapshot()
 	for k, v := range fired {
